@@ -257,6 +257,20 @@ pub fn step(cfg: &Cfg, part: &mut Part, seen: &Seen, level: Level, org: &Origin,
             part.violation(mk("no_panic", "panic".into(), format!("returned len={} capacity={}", y.len(), y.capacity()), "state"));
             StepOut { next: None, violated: true }
         }
+        (Exp::OkLenOnly(_), Err(())) => {
+            part.violation(mk("panicked", "returns".into(), "panicked".into(), "state"));
+            StepOut { next: None, violated: true }
+        }
+        (Exp::OkLenOnly(l), Ok((y, _))) => {
+            if y.len() != l {
+                part.violation(mk("wrong_len", format!("len={}", l), format!("len={}", y.len()), "state"));
+                return StepOut { next: None, violated: true };
+            }
+            // continue from whatever bits the implementation chose
+            let yb = y.bits();
+            let bad = check_vector(part, seen, level, &y, &yb, &mk, "");
+            StepOut { next: Some(y), violated: bad }
+        }
         (Exp::Ok { .. }, Err(())) => {
             part.violation(mk("panicked", "returns".into(), "panicked".into(), "state"));
             StepOut { next: None, violated: true }
